@@ -200,52 +200,58 @@ fn reg_labels(t: Table, private: bool) -> Vec<L> {
     v
 }
 
-/// Registries of the harness' own, built on the crate's public `EnumI64` / `WithPrivateRange`
-/// traits like an application's would be: assigned values of both signs around the encoding-length
-/// boundaries, and a private-use range that does *not* lie below every assigned value.
-#[derive(Debug, Clone, Copy, PartialEq, Eq)]
-enum MidPrivate {
-    Zero,
-    One,
-    Neg5,
-    Small,
-    Thousand,
-    Big,
-    NegBig,
-}
-const MID_TABLE: Table = &[("Zero", 0), ("One", 1), ("Neg5", -5), ("Small", 23), ("Thousand", 1000), ("Big", 70000), ("NegBig", -70000)];
-impl EnumI64 for MidPrivate {
-    fn from_i64(i: i64) -> Option<Self> {
-        Some(match i {
-            0 => MidPrivate::Zero,
-            1 => MidPrivate::One,
-            -5 => MidPrivate::Neg5,
-            23 => MidPrivate::Small,
-            1000 => MidPrivate::Thousand,
-            70000 => MidPrivate::Big,
-            -70000 => MidPrivate::NegBig,
-            _ => return None,
-        })
+#[cfg(feature = "own_impls")]
+mod own {
+    use super::*;
+    /// Registries of the harness' own, built on the crate's public `EnumI64` / `WithPrivateRange`
+    /// traits like an application's would be: assigned values of both signs around the encoding-length
+    /// boundaries, and a private-use range that does *not* lie below every assigned value.
+    #[derive(Debug, Clone, Copy, PartialEq, Eq)]
+    pub enum MidPrivate {
+        Zero,
+        One,
+        Neg5,
+        Small,
+        Thousand,
+        Big,
+        NegBig,
     }
-    fn to_i64(&self) -> i64 {
-        match self {
-            MidPrivate::Zero => 0,
-            MidPrivate::One => 1,
-            MidPrivate::Neg5 => -5,
-            MidPrivate::Small => 23,
-            MidPrivate::Thousand => 1000,
-            MidPrivate::Big => 70000,
-            MidPrivate::NegBig => -70000,
+    pub const MID_TABLE: Table = &[("Zero", 0), ("One", 1), ("Neg5", -5), ("Small", 23), ("Thousand", 1000), ("Big", 70000), ("NegBig", -70000)];
+    impl EnumI64 for MidPrivate {
+        fn from_i64(i: i64) -> Option<Self> {
+            Some(match i {
+                0 => MidPrivate::Zero,
+                1 => MidPrivate::One,
+                -5 => MidPrivate::Neg5,
+                23 => MidPrivate::Small,
+                1000 => MidPrivate::Thousand,
+                70000 => MidPrivate::Big,
+                -70000 => MidPrivate::NegBig,
+                _ => return None,
+            })
+        }
+        fn to_i64(&self) -> i64 {
+            match self {
+                MidPrivate::Zero => 0,
+                MidPrivate::One => 1,
+                MidPrivate::Neg5 => -5,
+                MidPrivate::Small => 23,
+                MidPrivate::Thousand => 1000,
+                MidPrivate::Big => 70000,
+                MidPrivate::NegBig => -70000,
+            }
         }
     }
-}
-impl WithPrivateRange for MidPrivate {
-    /// private use: 24..=300, -300..=-24 and everything above 2^32
-    fn is_private(i: i64) -> bool {
-        (24..=300).contains(&i) || (-300..=-24).contains(&i) || i > (1 << 32)
+    impl WithPrivateRange for MidPrivate {
+        /// private use: 24..=300, -300..=-24 and everything above 2^32
+        fn is_private(i: i64) -> bool {
+            (24..=300).contains(&i) || (-300..=-24).contains(&i) || i > (1 << 32)
+        }
     }
+    pub const MID_PRIVATE: &[i64] = &[24, 25, 255, 256, 300, -24, -25, -256, -257, -300, (1 << 32) + 1, i64::MAX];
 }
-const MID_PRIVATE: &[i64] = &[24, 25, 255, 256, 300, -24, -25, -256, -257, -300, (1 << 32) + 1, i64::MAX];
+#[cfg(feature = "own_impls")]
+use own::*;
 
 fn reg_domains() -> &'static Vec<RegDom> {
     static D: OnceLock<Vec<RegDom>> = OnceLock::new();
@@ -260,7 +266,8 @@ fn reg_domains() -> &'static Vec<RegDom> {
                 RegDom { name: concat!(stringify!($t), "+private"), labels: reg_labels(registry::$tab, true), pair: regp_pair::<$t> }
             };
         }
-        vec![
+        #[allow(unused_mut)]
+        let mut v = vec![
             plain!(iana::HeaderParameter, HEADER_PARAMETER),
             plain!(iana::HeaderAlgorithmParameter, HEADER_ALGORITHM_PARAMETER),
             plain!(iana::Algorithm, ALGORITHM),
@@ -281,8 +288,11 @@ fn reg_domains() -> &'static Vec<RegDom> {
             privy!(iana::Algorithm, ALGORITHM),
             privy!(iana::EllipticCurve, ELLIPTIC_CURVE),
             privy!(iana::CwtClaimName, CWT_CLAIM_NAME),
-            RegDom { name: "harness::MidPrivate", labels: reg_labels(MID_TABLE, false), pair: reg_pair::<MidPrivate> },
-            RegDom {
+        ];
+        #[cfg(feature = "own_impls")]
+        {
+            v.push(RegDom { name: "harness::MidPrivate", labels: reg_labels(MID_TABLE, false), pair: reg_pair::<MidPrivate> });
+            v.push(RegDom {
                 name: "harness::MidPrivate+private",
                 labels: {
                     let mut v = reg_labels(MID_TABLE, false);
@@ -290,8 +300,9 @@ fn reg_domains() -> &'static Vec<RegDom> {
                     v
                 },
                 pair: regp_pair::<MidPrivate>,
-            },
-        ]
+            });
+        }
+        v
     })
 }
 
